@@ -107,3 +107,18 @@ Theorem C14_compose_sequence : forall a r q,
   write_cred (WCompose (a :: r)) q = write_cred (WCompose r) (write_cred a q).
 Proof. exact compose_sequence. Qed.
 Print Assumptions C14_compose_sequence.
+
+(* ---- several requests on one transport, the default credential replaced between them ---- *)
+
+(* every request of a history is built as if it were the only one *)
+Theorem C14_each_request_on_its_own : forall h1 s h2,
+  nth_error (build_all (h1 ++ s :: h2)) (length h1) = Some (build_request s).
+Proof. exact build_all_pointwise. Qed.
+Print Assumptions C14_each_request_on_its_own.
+
+(* ... hence it carries the default credential configured at the time it is built (and only under the rule above),
+   whatever was configured, and used, before *)
+Theorem C14_default_is_the_current_one : forall h1 op default q0 h2,
+  nth_error (build_all (h1 ++ (op, default, q0) :: h2)) (length h1) = Some (expected_request op default q0).
+Proof. exact build_all_current. Qed.
+Print Assumptions C14_default_is_the_current_one.
